@@ -3,7 +3,8 @@
      mysql_db.go  matchesHostPattern, MySQLDb.GetUser, MySQLDb.ValidateHash, AddSuperUser (stored string)
      plan/create_user_data.go AuthenticationMysqlNativePassword.AuthString (stored string)
    Strings are byte lists (list N).  The hash function is a Section variable [H] (crypto/sha1 in the code);
-   hex decoding is concrete.  Definitions only; proofs are in AuthProofs.v. *)
+   hex decoding is concrete.  The tree modelled is the one repaired by a87f03e51 (length guard before the XOR loop).
+   Definitions only; proofs are in AuthProofs.v. *)
 From Coq Require Import List NArith Bool.
 Import ListNotations.
 Open Scope N_scope.
@@ -16,11 +17,6 @@ Fixpoint beqb (a b : bytes) : bool :=
   | x :: a', y :: b' => (x =? y) && beqb a' b'
   | _, _ => false
   end.
-
-(* outcome of a Go function that may hit an index-out-of-range *)
-Inductive outcome (A : Type) : Type := Ret (a : A) | Panic.
-Arguments Ret {A} a.
-Arguments Panic {A}.
 
 (* ---------- encoding/hex ---------- *)
 (* reverseHexTable: '0'-'9', 'a'-'f', 'A'-'F' *)
@@ -50,18 +46,8 @@ Fixpoint hex_encode (b : bytes) : bytes :=
   | x :: b' => hexdig (x / 16) :: hexdig (x mod 16) :: hex_encode b'
   end.
 
-(* for i := range scramble { scramble[i] ^= authResponse[i] }   -- index out of range when resp is shorter *)
-Fixpoint xor_index (scr resp : bytes) : option bytes :=
-  match scr with
-  | [] => Some []
-  | s :: scr' =>
-      match resp with
-      | [] => None
-      | r :: resp' => match xor_index scr' resp' with Some t => Some (N.lxor s r :: t) | None => None end
-      end
-  end.
-
-(* total xor of two equally long strings (client side) *)
+(* xor of two strings, as long as the shorter one: the loop "for i := range scramble { scramble[i] ^= authResponse[i] }"
+   (reached only when the response is at least as long as the scramble, see the guard in [validate]) and the client side *)
 Fixpoint xor_bytes (a b : bytes) : bytes :=
   match a, b with
   | x :: a', y :: b' => N.lxor x y :: xor_bytes a' b'
@@ -73,19 +59,19 @@ Definition strip_star (s : bytes) : bytes := match s with 42 :: r => r | _ => s 
 Section WithHash.
   Variable H : bytes -> bytes.
 
-  (* validateMysqlNativePassword(authResponse, salt, mysqlNativePassword) *)
-  Definition validate (resp salt auth : bytes) : outcome bool :=
+  (* validateMysqlNativePassword(authResponse, salt, mysqlNativePassword), with the length guard of a87f03e51:
+     "if len(authResponse) < len(scramble) { return false }" right before the XOR loop *)
+  Definition validate (resp salt auth : bytes) : bool :=
     match resp, auth with
-    | [], _ => Ret false
-    | _, [] => Ret false
+    | [], _ => false
+    | _, [] => false
     | _, _ =>
         match hex_decode (strip_star auth) with
-        | None => Ret false
+        | None => false
         | Some hash =>
-            match xor_index (H (salt ++ hash)) resp with
-            | None => Panic
-            | Some stage1 => Ret (beqb (H stage1) hash)
-            end
+            let scramble := H (salt ++ hash) in
+            if Nat.ltb (length resp) (length scramble) then false
+            else beqb (H (xor_bytes scramble (firstn (length scramble) resp))) hash
         end
     end.
 
@@ -150,7 +136,7 @@ Definition get_user (users : list user) (name orig : bytes) : option user :=
       end
   end.
 
-Inductive login_result : Type := Accept (name host : bytes) | Deny | LPanic.
+Inductive login_result : Type := Accept (name host : bytes) | Deny.
 
 Section Login.
   Variable H : bytes -> bytes.
@@ -167,11 +153,7 @@ Section Login.
             match u_auth u with
             | [] => match resp with [] => Accept (u_name u) (u_host u) | _ => Deny end
             | _ =>
-                match validate H resp salt (u_auth u) with
-                | Ret true => Accept (u_name u) (u_host u)
-                | Ret false => Deny
-                | Panic => LPanic
-                end
+                if validate H resp salt (u_auth u) then Accept (u_name u) (u_host u) else Deny
             end
       end.
 
